@@ -33,7 +33,7 @@ RULE = (
 )
 ASSUMPTIONS = [
     "direct paths agree to 1e-9 relative, iterative back-ends (run with atol=rtol=1e-10) to 1e-6 relative; iterative back-ends only on weights within one decade (AMG stalls otherwise: 'up to solver tolerance')",
-    "reuse_solver=True is only defined after a solve with the same matrix",
+    "reuse_solver=True is only defined after a solve with the same matrix, or as the first call on an object (nothing cached yet)",
 ]
 
 NMAX = {"quick": {1: 6, 2: 4, 3: 3}, "thorough": {1: 12, 2: 7, 3: 5}}
@@ -57,6 +57,11 @@ def cases(tier):
                 continue
             for wp in (0, 1):
                 out.append({"kind": "systems", "shape": list(s), "wp": wp})
+    # physically very small voxels (2^-15 of the anisotropic sizes: ~1e-5): the flux block of the
+    # system is then of order 1e-14 in 3-D -- any absolute regularisation would show
+    for s in [(2, 2, 2), (3, 2, 2), (2, 3), (4,)]:
+        for wp in (0, 1):
+            out.append({"kind": "systems", "shape": list(s), "wp": wp, "vs": "tiny"})
     for s in [(3,), (2, 3), (3, 1), (2, 2, 2)] + ([(4, 3), (1, 5), (3, 2, 2)] if tier == "thorough" else []):
         for form in FORMS:
             out.append({"kind": "history", "shape": list(s), "form": list(form)})
@@ -139,6 +144,8 @@ def run_systems(case, r):
     shape, wp = tuple(case["shape"]), case["wp"]
     dim = len(shape)
     vs = Wh.voxel_sizes(dim, "aniso")
+    if case.get("vs") == "tiny":
+        vs = [v * 2.0**-15 for v in vs]
     # non-initial process state: solver objects on a grid of the SAME shape but OTHER voxel sizes have
     # been built and used before (state kept between objects, e.g. setups cached per shape, shows up)
     for form in (("pressure", "direct"), ("flux_reduced", "direct"), ("full", "direct")):
@@ -288,8 +295,9 @@ def run_history(case, r):
         hist = frontier.popleft()
         last_m = hist[-1][0] if hist else None
         for op in ops:
-            if op[2] and last_m != op[0]:
-                continue  # reuse is only defined after a solve with the same matrix
+            if op[2] and hist and last_m != op[0]:
+                continue  # reuse is only defined after a solve with the same matrix -- or as the very first
+                # call on an object (nothing to reuse yet: the library then sets the solver up)
             o = fresh()
             kept = [call(o, h) for h in hist]  # the arrays the caller received and still holds
             snap = [k.copy() for k in kept]
